@@ -1,5 +1,6 @@
 import OrdModel.Proofs.IndexRunemintChain
 import OrdModel.Proofs.IndexRunemintCommit
+import OrdModel.Proofs.IndexLiftRuneFrame
 /-!
 # C11 — Only valid etchings create runes, with unique names, IDs and numbers
 
@@ -177,6 +178,30 @@ theorem c11_tables_partial (cfg : Cfg) (hfr : FrameOK cfg) (chain : List Block) 
     exact (Option.some.inj h1).symm
   · have := congrArg List.length hinv.numbers
     simpa using this
+
+/-- **Unique names, ids and numbers — every configuration, every reachable state** of a chain of
+consecutive blocks (all combinations of the sat / inscription / address / rune indexes).
+FULL: the frame hypothesis of `c11_tables_partial` is proved for every `cfg`
+(`RuneLift.frameOK`, Proofs/IndexLiftRuneFrame.lean: `indexUtxoEntries` leaves `runeEntries`,
+`rune2id`, `runes`, `reservedRunes`, `txid2rune`, `balances`, `seq2rune` unchanged). -/
+theorem c11_tables (cfg : Cfg) (chain : List Block) (st : State)
+    (evs : List Event) (hr : run cfg chain = .ok (st, evs)) (hc : ChainOK chain) :
+    (∀ id e, AL.get st.runeEntries id = some e →
+      e.block = id.block ∧ id.block < chain.length ∧ id.tx < 2 ^ 32 ∧
+      AL.get st.rune2id e.rune = some id ∧
+      (e.rune < RESERVED ∨ e.rune = reservedRune id.block id.tx)) ∧
+    (∀ r id, AL.get st.rune2id r = some id → ∃ e, AL.get st.runeEntries id = some e ∧ e.rune = r) ∧
+    (∀ id id' e e', AL.get st.runeEntries id = some e → AL.get st.runeEntries id' = some e' →
+      e.rune = e'.rune → id = id') ∧
+    st.runeEntries.map (fun p => p.2.number) = List.range st.runes ∧
+    st.runeEntries.length = st.runes :=
+  c11_tables_partial cfg (RuneLift.frameOK cfg) chain st evs hr hc
+
+/-- the table invariant `RInv` itself in every reachable state of every configuration (what the
+chain-level C08 proof builds on) -/
+theorem c11_rinv (cfg : Cfg) (chain : List Block) (st : State) (evs : List Event)
+    (hr : run cfg chain = .ok (st, evs)) (hc : ChainOK chain) : RInv st chain.length 0 :=
+  run_inv cfg (RuneLift.frameOK cfg) chain st evs hr hc
 
 theorem c11_tables_rune_only (cfg : Cfg)
     (hcfg : cfg.indexInscriptions = false ∧ cfg.indexAddresses = false ∧ cfg.indexSats = false)
